@@ -23,7 +23,7 @@ static void strto_check(size_t n, uchar *content, uchar want_end, size_t k)
 #endif
     uchar *t = NEW_OBJ(n);
 #ifdef WITNESS_MODE
-    __CPROVER_assume(n <= 24);
+    __CPROVER_assume(n <= 6);
     for (size_t vc_i = 0; vc_i < n; vc_i++)
         t[vc_i] = content[vc_i];
 #endif
